@@ -21,14 +21,8 @@ Theorem C09_refuted_internal_errors_escape :
 Proof. exact c09_internal_errors_witness. Qed.
 Print Assumptions C09_refuted_internal_errors_escape.
 
-(* the recursion is not bounded (still running out of depth fuel after 150 nested calls), *)
+(* and the recursion is not bounded (still running out of depth fuel after 150 nested calls). *)
 Theorem C09_refuted_unbounded_recursion : w_c09_diverges_run 150 = CFatal EFuel.
 Proof. exact c09_diverges_witness. Qed.
 Print Assumptions C09_refuted_unbounded_recursion.
 
-(* and a failure can name a project that is not in the graph handed back for the diagnostic. *)
-Theorem C09_refuted_failure_not_located :
-  match w_c09_failure_not_in_graph_run 100 with CNoCand g nm _ => (nm, pin_of g "a") | _ => (EmptyString, None) end
-    = ("a", None).
-Proof. exact c09_failure_not_in_graph_witness. Qed.
-Print Assumptions C09_refuted_failure_not_located.
